@@ -20,6 +20,15 @@ STR_ALPHA = ["'", '"', "\\", "\n", "\r", "\t", "\0", "#", "/", "{", "}",
              "<", ">", " ", "a", "x", "é", "€"]
 
 
+TOKEN_STRINGS = [
+    "(", ")", "[", "]", ",", ";", "=", "+", "-", "*", "%", "<<", ">>", "<<<",
+    ">>>", "<*", "*>", "=>", "->", "!>", "...", "==", "!=", "<>", "<=", ">=",
+    "+=", "def", "fn", "do", "end", "if", "then", "elif", "else", "for",
+    "in", "is", "not", "and", "or", "return", "error", "break", "continue",
+    "while", "require", "catch", "finally", "also", "keys", "values",
+    "entries", "all", "to", "class", "FALSE", "0x1F", "-1", "1e3"]
+
+
 def atoms(tier="quick"):
     out = [None, True, False]
     out += [0, 1, -1, 2 ** 31, -2 ** 31, 2 ** 63, -2 ** 63, 10 ** 30,
@@ -39,6 +48,8 @@ def atoms(tier="quick"):
     strs += [a + b + c for a in sub for b in sub for c in sub]
     strs += ["\\x41", "//", "'#", "a//b", "# c", "{x}", "<<1>>", "'''",
              "\\'", "\\\\", "a\\", "TRUE", "NULL", "1", "1.0", "ab\ncd"]
+    # strings whose whole content is one token of the language
+    strs += TOKEN_STRINGS
     out += strs
     out += [("pat", "a"), ("pat", "."), ("pat", "[a-z]+"), ("pat", "\\d"),
             ("pat", "a/b"), ("pat", "a//b"), ("pat", "a/"), ("pat", "'"),
